@@ -852,3 +852,57 @@ int lemma_evplus_minus_shortcuts_pw(struct forest *fa, struct forest *fb, struct
 }
 void h_evplus_minus_shortcuts_pw(void) { struct forest *fa, *fb, *fc; node_handle w_a = nondet_int(), w_b = nondet_int(); long w_da = nondet_long(), w_db = nondet_long(); _Bool w_dai = nondet_bool(), w_dbi = nondet_bool();
     lemma_evplus_minus_shortcuts_pw(fa, fb, fc, w_a, w_b, w_da, w_dai, w_db, w_dbi); CANARY(); }
+
+int lemma_evstar_div_kernel(struct forest *fa, struct forest *fb, struct forest *fc, node_handle a, node_handle b, const struct edge_value *av_, const struct edge_value *bv_)
+{
+    struct edge_value cv; node_handle cn = 12345; cv.mytype = edge_type__VOID;
+    evstar_div__apply_node(fa, a, fb, b, fc, &cn);
+    int exc = verif_exc; verif_exc = 0;
+    if (b == OMEGA_ZERO) return exc == ERR_DIVIDE_BY_ZERO;                 /* the zero function as divisor */
+    if (exc != 0) return 0;
+    evstar_div__apply_edge(av_, bv_, &cv);
+    exc = verif_exc; verif_exc = 0;
+    if (bv_->ev_float == 0.0f) return exc == ERR_DIVIDE_BY_ZERO;           /* a zero factor on the divisor's edge */
+    /* the quotient itself is one float division in the source; 'cv == av / bv' is an equivalence of two float dividers that no back end finished - not checked */
+    return exc == 0 && cn == (a == OMEGA_ZERO ? OMEGA_ZERO : OMEGA_NORMAL) && cv.mytype == edge_type__FLOAT;
+}
+void h_evstar_div_kernel(void) { struct forest *fa, *fb, *fc; struct edge_value *x, *y; node_handle w_a = nondet_int(), w_b = nondet_int(); lemma_evstar_div_kernel(fa, fb, fc, w_a, w_b, x, y); CANARY(); }
+/* value of a node function at the assignment the ghost stands for: (factor, terminal) */
+static void evs_point(node_handle n, float d, float *pv, node_handle *pn)
+{
+    if (n == OMEGA_ZERO) { *pn = OMEGA_ZERO; *pv = 0.0f; }
+    else if (n == OMEGA_NORMAL) { *pn = OMEGA_NORMAL; *pv = 1.0f; }
+    else if (d == 0.0f) { *pn = OMEGA_ZERO; *pv = 0.0f; }
+    else { *pn = OMEGA_NORMAL; *pv = d; }
+}
+/* kernel (node level, then edge level) on two point values; 1 iff it raises nothing and yields the value (wv, wn) */
+static int evs_div_agrees(struct forest *fa, struct forest *fb, struct forest *fc, float pav, node_handle pan, float pbv, node_handle pbn, float wv, node_handle wn)
+{
+    node_handle cn = 12345; struct edge_value x, y, c; x.mytype = edge_type__FLOAT; x.ev_float = pav; y.mytype = edge_type__FLOAT; y.ev_float = pbv; c.mytype = edge_type__VOID;
+    evstar_div__apply_node(fa, pan, fb, pbn, fc, &cn);
+    if (verif_exc) { verif_exc = 0; return 0; }
+    if (cn == OMEGA_ZERO) return wn == OMEGA_ZERO;
+    evstar_div__apply_edge(&x, &y, &c);
+    if (verif_exc) { verif_exc = 0; return 0; }
+    return wn == OMEGA_NORMAL && c.mytype == edge_type__FLOAT && c.ev_float == wv;
+}
+int lemma_evstar_div_shortcuts_pw(struct forest *fa, struct forest *fb, struct forest *fc, node_handle a, node_handle b, float da, float db)
+{
+    int ok = 0;
+    float pav, pbv, wv; node_handle pan, pbn, wn;
+    evs_point(a, da, &pav, &pan); evs_point(b, db, &pbv, &pbn);
+    { node_handle a1 = a;
+      if (evstar_div__simplifiesToFirstArg(0, fa, &a1, fb, b)) {
+          if (a1 == a || a1 <= 0) { evs_point(a1, da, &wv, &wn); if (evs_div_agrees(fa, fb, fc, pav, pan, pbv, pbn, wv, wn)) ok |= 1; }
+      } else ok |= 1; }
+    { node_handle b1 = b;
+      if (evstar_div__simplifiesToSecondArg(0, fa, a, fb, &b1)) {
+          if (b1 == b || b1 <= 0) { evs_point(b1, db, &wv, &wn); if (evs_div_agrees(fa, fb, fc, pav, pan, pbv, pbn, wv, wn)) ok |= 2; }
+      } else ok |= 2; }
+    { if (a > 0 && evstar_div__stopOnEqualArgs()) {      /* makeEqualResult yields the constant 1: x/x must be defined and 1 at every assignment */
+          if (evs_div_agrees(fa, fa, fc, pav, pan, pav, pan, 1.0f, OMEGA_NORMAL)) ok |= 4;
+      } else ok |= 4; }
+    return ok;
+}
+void h_evstar_div_shortcuts_pw(void) { struct forest *fa, *fb, *fc; node_handle w_a = nondet_int(), w_b = nondet_int(); float w_da = nondet_float(), w_db = nondet_float();
+    lemma_evstar_div_shortcuts_pw(fa, fb, fc, w_a, w_b, w_da, w_db); CANARY(); }
